@@ -80,6 +80,13 @@ P == CASE Profile = "c04q" ->
                         <<Iu("ext"), Iu("inc"), Is("sys")>>},
              \* (two platform names that differ only in letter case: distinct platforms)
              forced |-> {<<>>}, nents |-> 3, plats |-> <<"p1", "P1", "p3">>]
+      [] Profile = "c14s" ->
+            \* two commands whose include directories are the same SET in either order, one header name in both
+            \* directories: every scenario (the platform order of the analysis file then decides nothing)
+            [slots |-> <<<<"sys", "g.h">>, <<"bld", "g.h">>>>,
+             bodies |-> {"def"}, stmts |-> {"ag"}, maxmain |-> 1, nmains |-> 1,
+             idirs |-> {<<Iu("bld"), Iu("sys")>>, <<Iu("sys"), Iu("bld")>>},
+             forced |-> {<<>>}, nents |-> 2, plats |-> <<"p1", "P1">>]
       [] Profile = "c10" ->
             \* headers that change and test the macro state, included several times by one TU, inside and outside the root
             [slots |-> <<<<"inc", "h.h">>, <<"ext", "g.h">>, <<"inc", "g.h">>>>,
@@ -107,7 +114,7 @@ HdrChoices == CASE Profile = "c18" -> {"U", "q:h.h", "a:g.h", "q:nope.h"}
                 [] OTHER -> {"U"}
 
 \* the value -DX gets: the same NAME may be defined to different values by the commands of one platform
-XChoices == IF Profile \in {"sim", "c08q"} THEN {"U", "1", "0"} ELSE IF Profile = "c08s" THEN {"U"} ELSE {"U", "1"}
+XChoices == IF Profile \in {"sim", "c08q"} THEN {"U", "1", "0"} ELSE IF Profile \in {"c08s", "c14s"} THEN {"U"} ELSE {"U", "1"}
 
 Slots == P.slots
 Bodies == P.bodies
@@ -281,7 +288,7 @@ RepOut(plats) ==
    dist |-> [p \in plats |-> [q \in plats |-> Distance(tab, p, q)]],
    laws |-> RowsPartition(L) /\ DirIsSumOfChildren(L) /\ RootIsSummary(L) /\ PruneDropsExactlyUnused(L)
             /\ UsedUnusedPartition(L)]
-WithReports == Profile = "c06"
+WithReports == Profile \in {"c06", "c14s"}
 
 \* ---- C18: what must be reported (one warning per occurrence) ---------------------------------
 \* files CBI parses: every code-base file, plus outside files some TU enters
